@@ -18,6 +18,8 @@ package webrtc
 import (
 	"fmt"
 	"testing"
+
+	"pgregory.net/rapid"
 )
 
 func vfC06Inspect(all *[]vfFamBFinding, who, text string) {
@@ -72,6 +74,164 @@ func TestVerif_C06_Pair(t *testing.T) {
 			v.Label("desc:" + ev.Kind)
 		}, nil, nil)
 		if st.Rounds >= 2 && st.AddAfterRound {
+			v.NonTrivial()
+		}
+		vfFamBReport(v, all)
+	})
+}
+
+// ---- local histories with superseded offers ---------------------------------------------
+//
+// One PeerConnection whose offers are mostly never answered: CreateOffer after every operation
+// (superseded by the next one), optionally applied and rolled back, with completed rounds against
+// a pion peer that only ever answers in between. The peer adds nothing itself, so every mid in
+// every description is allocated by the connection under test: a duplicate here is a purely
+// local one (the cross-peer collision after an unanswered offer is C09's recorded finding and
+// cannot arise in this test).
+
+type vfC06LocalOp struct {
+	Op   string `json:"op"` // addTrack | addKind | dc | removeTrack | stop | offer | offerRollback | negotiate
+	Kind string `json:"kind,omitempty"`
+	Dir  string `json:"dir,omitempty"`
+	A    int    `json:"a,omitempty"`
+}
+
+type vfC06LocalCase struct {
+	Side vfFamBPSide    `json:"side"`
+	Ops  []vfC06LocalOp `json:"ops"`
+}
+
+func TestVerif_C06_Local(t *testing.T) {
+	vfProperty(t, "C06", vfOpts{
+		Rule: "local histories: non-trivial = an offer was generated after a data channel was requested, an earlier offer had been left unanswered (superseded or rolled back) and something was added since",
+	}, func(v *vfT) vfC06LocalCase {
+		r := v.R
+		var c vfC06LocalCase
+		c.Side = vfFamBPSide{Sem: rapid.IntRange(0, 1).Draw(r, "sem"), MediaFP: rapid.Bool().Draw(r, "mediaFP"), AlwaysDC: rapid.IntRange(0, 5).Draw(r, "alwaysDC") == 0}
+		if rapid.Bool().Draw(r, "customME") {
+			c.Side.ME = vfFamBGenME(r, vfFamBMEGenOpts{NeedAudio: true, NeedVideo: true, Remap: true, Exts: true})
+		} else {
+			c.Side.DefaultME = true
+		}
+		n := rapid.IntRange(3, 12).Draw(r, "nOps")
+		for i := 0; i < n; i++ {
+			op := vfC06LocalOp{Op: rapid.SampledFrom([]string{"addTrack", "addKind", "addKind", "dc", "dc", "removeTrack", "stop", "offer", "offer", "offerRollback", "negotiate"}).Draw(r, "op")}
+			switch op.Op {
+			case "addTrack":
+				op.Kind = rapid.SampledFrom([]string{"audio", "video"}).Draw(r, "kind")
+			case "addKind":
+				op.Kind = rapid.SampledFrom([]string{"audio", "video"}).Draw(r, "kind")
+				op.Dir = rapid.SampledFrom([]string{"sendrecv", "sendonly", "recvonly"}).Draw(r, "dir")
+			case "removeTrack", "stop":
+				op.A = rapid.IntRange(0, 5).Draw(r, "a")
+			}
+			c.Ops = append(c.Ops, op)
+		}
+		return c
+	}, func(v *vfT, c vfC06LocalCase) {
+		s := c.Side
+		newPC := func() *PeerConnection {
+			pc, err := vfFamBNewPC(vfFamBPCOpts{ME: s.ME, DefaultME: s.DefaultME, Semantics: vfFamBSemantics[s.Sem%len(vfFamBSemantics)], MediaFP: s.MediaFP, AlwaysDC: s.AlwaysDC})
+			if err != nil {
+				v.Skip("NewPeerConnection: " + err.Error())
+			}
+			return pc
+		}
+		pc := newPC()
+		defer func() { _ = pc.Close() }()
+		var peer *PeerConnection
+		defer func() {
+			if peer != nil {
+				_ = peer.Close()
+			}
+		}()
+		var all []vfFamBFinding
+		dcWanted, unanswered, addedSince, nt := s.AlwaysDC, false, false, false
+		trackN := 0
+		offer := func(step int, rollback bool) {
+			if pc.SignalingState() != SignalingStateStable {
+				v.Label("skip:not-stable")
+				return
+			}
+			off, err := pc.CreateOffer(nil)
+			if err != nil {
+				v.Label("create-offer-error")
+				return
+			}
+			vfC06Inspect(&all, fmt.Sprintf("step %d offer (never answered)", step), off.SDP)
+			v.Label("desc:offer-never-answered")
+			if dcWanted && unanswered && addedSince {
+				nt = true
+				v.Label("desc:offer-after-unanswered-offer+addition,datachannel-wanted")
+			}
+			unanswered, addedSince = true, false
+			if rollback {
+				if err := pc.SetLocalDescription(off); err != nil {
+					v.Label("set-local-offer-error")
+					return
+				}
+				if err := pc.SetLocalDescription(SessionDescription{Type: SDPTypeRollback}); err != nil {
+					v.Label("rollback-error")
+					return
+				}
+				v.Label("offer-rolled-back")
+			}
+		}
+		for i, op := range c.Ops {
+			var err error
+			switch op.Op {
+			case "addTrack":
+				trackN++
+				var tl TrackLocal
+				if tl, err = vfFamBTrack(s.ME, s.DefaultME, op.Kind, fmt.Sprintf("c06t%d", trackN), "c06s", ""); err == nil {
+					_, err = pc.AddTrack(tl)
+				}
+				addedSince = addedSince || err == nil
+			case "addKind":
+				_, err = pc.AddTransceiverFromKind(vfFamBKind(op.Kind), RTPTransceiverInit{Direction: NewRTPTransceiverDirection(op.Dir)})
+				addedSince = addedSince || err == nil
+			case "dc":
+				if _, err = pc.CreateDataChannel(fmt.Sprintf("dc%d", i), nil); err == nil {
+					dcWanted = true
+				}
+			case "removeTrack":
+				if sn := pc.GetSenders(); len(sn) > 0 {
+					err = pc.RemoveTrack(sn[op.A%len(sn)])
+				}
+			case "stop":
+				if tr := pc.GetTransceivers(); len(tr) > 0 {
+					err = tr[op.A%len(tr)].Stop()
+				}
+			case "offer":
+				offer(i, false)
+			case "offerRollback":
+				offer(i, true)
+			case "negotiate":
+				if pc.SignalingState() != SignalingStateStable {
+					v.Label("skip:not-stable")
+					break
+				}
+				if peer == nil {
+					peer = newPC()
+				}
+				r := vfFamBExchange(pc, peer, nil, func(kind, text string) {
+					vfC06Inspect(&all, fmt.Sprintf("step %d %s", i, kind), text)
+					v.Label("desc:" + kind)
+				})
+				if r.Stage != "" {
+					v.Label("round-failed:" + r.Stage)
+					vfFamBReport(v, all)
+					return // no caller continues from a half-applied exchange
+				}
+				v.Label("round-ok")
+				unanswered, addedSince = false, false
+			}
+			if err != nil {
+				v.Label("op-error:" + op.Op)
+			}
+		}
+		offer(len(c.Ops), false)
+		if nt {
 			v.NonTrivial()
 		}
 		vfFamBReport(v, all)
